@@ -1535,3 +1535,134 @@ def rule_payload_verbatim(ctx, g, rid):
         else:
             ctx.ok(rid, f.short, "payloads stored as decoded")
     ctx.floor(rid, "parser_functions", n_fn, 5)
+
+
+# ----------------------------------------------------------------------------------------------------------
+def _emitted_variants(F, f, memo, depth=0):
+    """GdsRecord variants that `f` (an encoder) constructs, itself or through workspace callees"""
+    if f.id in memo:
+        return memo[f.id]
+    memo[f.id] = set()
+    out = set()
+    if f.body and depth < 6:
+        b = Body(f)
+        for blk in b.blocks:
+            for st in blk["st"]:
+                if st["k"] == "assign" and st["rv"]["k"] == "agg" and st["rv"].get("id") == gc.REC and st["rv"].get("variant"):
+                    out.add(st["rv"]["variant"])
+        for bi, t in b.calls():
+            cid = callee_id(t)
+            cands = [F.fns[cid]] if cid in F.fns else []
+            if not cands and cid and cid.startswith("gds21::write::Encode::"):
+                cands = [h for h in F.fns.values() if h.id == cid]
+            for h in cands:
+                if h.id.startswith("gds21::write::") and h.id != f.id:
+                    out |= _emitted_variants(F, h, memo, depth + 1)
+        for cf, abb, an in od.closure_loops(F, f):
+            out |= _emitted_variants(F, cf, memo, depth + 1)
+    memo[f.id] = out
+    return out
+
+
+def encoder_loop_variants(F, f):
+    """(direct, via_calls): variants constructed inside a loop of encoder `f` itself / emitted by anything it calls from
+    inside a loop (closures handed to iterator adapters count as loop bodies)"""
+    b = Body(f)
+    inloop = set()
+    for h, blks in b.loops():
+        inloop |= blks
+    direct, via = set(), set()
+    memo = {}
+    for bi, blk in enumerate(b.blocks):
+        if bi not in inloop:
+            continue
+        for st in blk["st"]:
+            if st["k"] == "assign" and st["rv"]["k"] == "agg" and st["rv"].get("id") == gc.REC and st["rv"].get("variant"):
+                direct.add(st["rv"]["variant"])
+        t = blk["term"]
+        if t["k"] == "call":
+            cid = callee_id(t)
+            h = F.fns.get(cid)
+            if h is not None and h.id.startswith("gds21::write::") and h.id != f.id:
+                via |= _emitted_variants(F, h, memo)
+    for cf, abb, an in od.closure_loops(F, f):
+        direct |= {st["rv"]["variant"] for blk in cf.body["blocks"] for st in blk["st"]
+                   if st["k"] == "assign" and st["rv"]["k"] == "agg" and st["rv"].get("id") == gc.REC and st["rv"].get("variant")}
+        via |= _emitted_variants(F, cf, memo)
+    return direct, via
+
+
+def rule_repeatable_records(ctx, g, rid):
+    """writer / parser agreement on which records repeat: what the encoder of a construct emits once per list item is
+    accumulated by that construct's parser; what it emits once is stored once - never appended across records"""
+    from analysis.nondet import root_local
+    ctx.rule(rid, "per construct (library, structure, each element kind): a record kind its encoder emits inside a loop is appended to a collection by its parser (a replacing setter keeps only the last); a record kind its encoder emits once is never appended to a collection that outlives the record (several such records would be merged into one value the writer cannot emit)")
+    F = ctx.F
+    prs, ens = parsers_by_type(F), encoders_by_type(F)
+    n = 0
+    APPEND = re.compile(r"Vec::<.*>::(push|append|extend_from_slice|insert)$|Extend<.*>>?::extend$|Vec::<.*>::extend$")
+    for tid, pf in sorted(prs.items()):
+        ef = ens.get(tid)
+        if ef is None:
+            continue
+        direct, via = encoder_loop_variants(F, ef)
+        b = Body(pf)
+        sw = gc.main_record_switch(F, b)
+        if sw is None:
+            continue
+        bi, arms, other, eid = sw
+        myloop = None
+        for h, blks in b.loops():
+            if bi in blks and (myloop is None or len(blks) < len(myloop[1])):
+                myloop = (h, blks)
+        if myloop is None:
+            continue
+        tshort = tid.split("::")[-1]
+        # locals that live across iterations: some definition outside the loop
+        def outlives(l):
+            if l is None:
+                return False
+            if 1 <= l <= b.argc:
+                return True
+            return any(d[0] not in myloop[1] for d in b.defs.get(l, []))
+        by_target = {}
+        for v, tgt in arms.items():
+            by_target.setdefault(tgt, []).append(v)
+        for tgt, vs in sorted(by_target.items()):
+            if tgt == other:
+                continue
+            reg = od.region(b, tgt) & myloop[1]
+            appends = []
+            for x in sorted(reg):
+                t = b.term(x)
+                if t["k"] == "call" and APPEND.search(callee_name(t) or "") and t["args"]:
+                    # the receiver may be obtained through calls (`xy.get_or_insert_with(Vec::new)`, `as_mut().unwrap()`):
+                    # follow their first argument back to a local
+                    o = t["args"][0]
+                    r = None
+                    for _ in range(6):
+                        r = root_local(b, o)
+                        if r is None or 1 <= r <= b.argc:
+                            break
+                        d = b.single_def(r)
+                        if d is not None and d[2] == "call" and d[3]["args"] and not outlives(r):
+                            o = d[3]["args"][0]
+                            continue
+                        break
+                    if outlives(r):
+                        appends.append(x)
+            for v in vs:
+                n += 1
+                key = "%s/%s" % (tshort, v)
+                if v in direct:
+                    if appends:
+                        ctx.ok(rid, key, "repeated by the encoder, accumulated by the parser")
+                    else:
+                        ctx.violation(rid, key, "%s: the encoder of %s emits %s once per list item, but the parser's arm for it does not append to a collection: of several such records only the last survives" % (pf.short, tshort, v), b.site(tgt), key)
+                elif v in via:
+                    ctx.ok(rid, key, "sub-construct repeated by the encoder")
+                elif appends:
+                    ctx.violation(rid, key, "%s: the encoder of %s emits %s at most once, but the parser appends its payload to a collection that outlives the record: several such records are merged into one value (which the writer may be unable to emit, or emits differently)" % (pf.short, tshort, v), b.site(appends[0]), key)
+                else:
+                    ctx.ok(rid, key, "stored once")
+    ctx.floor(rid, "record_arms", n, 40)
